@@ -78,6 +78,17 @@ def executeFrames (stmtTs : Option Int) (gen : Option (Unit → Int)) (unprepare
   let ts := pickTimestamp stmtTs gen
   if unprepared then [ts, ts] else [ts]
 
+/-- The BATCH frames one `Connection::batch_with_consistency` call writes (connection.rs:1195-1245): the timestamp
+is picked ONCE before the `loop`, the frame value `batch_frame` is built once, and every round of the re-prepare loop
+(`continue` after an UNPREPARED naming one of the batch's statements) sends that same frame again; `resends` = the
+number of rounds the node refused (the loop itself is unbounded: it ends when the node stops evicting). -/
+def batchFrames (batchTs : Option Int) (gen : Option (Unit → Int)) (resends : Nat) : List (Option Int) :=
+  List.replicate (resends + 1) (pickTimestamp batchTs gen)
+
+/-- The single QUERY frame of `Connection::query_raw_with_consistency` (connection.rs:886-900): no re-send path. -/
+def queryFrames (stmtTs : Option Int) (gen : Option (Unit → Int)) : List (Option Int) :=
+  [pickTimestamp stmtTs gen]
+
 /-! ### sequential runs under a scripted clock (what the harness observes on one thread) -/
 
 /-- The scripted clock of `verif_hooks::clock`: each reading pops the next entry; when the script is
